@@ -5,8 +5,10 @@ import (
 	"context"
 	"fmt"
 	"io"
+	"log"
 	"net"
 	"net/http"
+	"net/http/httptest"
 	"strings"
 	"sync"
 	"sync/atomic"
@@ -243,6 +245,9 @@ var endings = []string{
 	"watch-stream",   // ?watch=true: long-running for the generic filters, streamed
 	"http10",         // raw socket, HTTP/1.0 without keep-alive
 	"upload-aborted", // raw socket, POST announcing 200000 bytes, connection closed after 1000
+	// the same chain behind a TLS listener that speaks HTTP/2 (one connection, multiplexed streams)
+	"h2-ok", "h2-slow", "h2-no-ready-endpoint",
+	"h2-cancel", // the client resets the stream mid-body (RST_STREAM instead of a closed connection)
 }
 
 type e2eEnv struct {
@@ -252,6 +257,9 @@ type e2eEnv struct {
 	tok               string
 	idn               int64
 	probeN            int64
+	h2                *httptest.Server
+	h2c               *http.Client
+	h2Responses       int64
 	rtPanics, rtFails int64
 }
 
@@ -373,6 +381,8 @@ func (b *batch) startOn(mode, resource string) *pending {
 	id := b.newID()
 	method := "GET"
 	var body io.Reader
+	viaH2 := strings.HasPrefix(mode, "h2-")
+	mode = strings.TrimPrefix(mode, "h2-")
 	switch mode {
 	case "watch-stream":
 		resource, mode = resource+"?watch=true", "slow"
@@ -393,10 +403,29 @@ func (b *batch) startOn(mode, resource string) *pending {
 	req = req.WithContext(ctx)
 	p := &pending{id: id, done: make(chan outcome, 1), cancel: cancel}
 	go func() {
+		if viaH2 {
+			p.done <- b.env.doH2(req, id)
+			return
+		}
 		resp := b.env.gw.Do(req)
 		p.done <- outcome{id: id, status: resp.Status, err: resp.Err}
 	}()
 	return p
+}
+
+// doH2 sends the request over the HTTP/2 listener.
+func (e *e2eEnv) doH2(req *http.Request, id string) outcome {
+	req.URL.Scheme, req.URL.Host = "https", e.h2.Listener.Addr().String()
+	resp, err := e.h2c.Do(req)
+	if err != nil {
+		return outcome{id: id, err: err}
+	}
+	defer resp.Body.Close()
+	if resp.ProtoMajor == 2 {
+		atomic.AddInt64(&e.h2Responses, 1)
+	}
+	_, err = io.Copy(io.Discard, resp.Body)
+	return outcome{id: id, status: resp.StatusCode, err: err}
 }
 
 // startRaw speaks to the gateway's listener over a raw TCP connection.
@@ -579,8 +608,15 @@ func endToEnd(r *vkit.R) {
 	gw.Start()
 	defer gw.Close()
 	env := &e2eEnv{r: r, gw: gw, hc: hc, tok: gw.Tokens.Add(&user.DefaultInfo{Name: "alice"})}
+	env.h2 = httptest.NewUnstartedServer(hc)
+	env.h2.EnableHTTP2 = true
+	env.h2.Config.ErrorLog = log.New(io.Discard, "", 0)
+	env.h2.StartTLS()
+	defer env.h2.Close()
+	env.h2c = env.h2.Client()
+	env.h2c.CheckRedirect = func(*http.Request, []*http.Request) error { return http.ErrUseLastResponse }
 
-	nEnd := count(r.Quick(), 108, 1800, 360)
+	nEnd := count(r.Quick(), 132, 2200, 440)
 	scen := []string{"type-toggle-tokenBucket", "type-toggle-exempt", "admitted-as-tokenBucket", "delete-re-add", "resize-down", "resize-up", "noop-update",
 		"endpoint-removed", "near-collision-sibling", "schema-named-system-default",
 		"cluster-delete-recreate", "limit-zero", "storm", "two-clusters-same-schema",
@@ -688,7 +724,7 @@ func endToEnd(r *vkit.R) {
 				for k := 0; k < n; k++ {
 					ps = append(ps, b.start(ending))
 				}
-				if ending == "cancel" {
+				if ending == "cancel" || ending == "h2-cancel" {
 					// cancel each stream once it is in flight upstream (or was refused)
 					for _, p := range ps {
 						p := p
@@ -886,6 +922,7 @@ func endToEnd(r *vkit.R) {
 	})
 	r.Count("e2e_panics_injected_while_writing_503", int(atomic.LoadInt64(&hc.writePanics)))
 	r.Count("e2e_panics_injected_in_upgrade_hijack", int(atomic.LoadInt64(&hc.hijackPanics)))
+	r.Count("e2e_h2_responses", int(atomic.LoadInt64(&env.h2Responses)))
 	r.Count("e2e_transport_panics_injected", int(atomic.LoadInt64(&env.rtPanics)))
 	r.Count("e2e_transport_errors_injected", int(atomic.LoadInt64(&env.rtFails)))
 }
